@@ -14,7 +14,7 @@ CTX = "src/context.rs"
 HEADER = """
 use full_moon::ast::{Expression, UnOp, BinOp, FunctionBody, FunctionCall, TableConstructor, Var, VarExpression, Prefix, Suffix, Index, Call, FunctionArgs, MethodCall};
 use full_moon::ast::{Stmt, LastStmt, Block, Return, Assignment, Do, FunctionDeclaration, GenericFor, If, LocalAssignment, LocalFunction, NumericFor, Repeat, While};
-use full_moon::tokenizer::Position;
+use full_moon::tokenizer::{Position, TokenKind};
 use full_moon::ast::Ast;
 use full_moon::ast::span::ContainedSpan;
 use full_moon::ast::punctuated::Punctuated;
